@@ -58,19 +58,4 @@ mod harnesses {
         }
         kani::cover!(n == 3, "odd shared length reachable");
     }
-
-    /// C32 (probe): from_relative_path on short ASCII paths never yields empty, "." or ".." components.
-    #[kani::proof]
-    #[kani::unwind(5)]
-    fn c32_from_relative_path_2() {
-        let mut buf = [0u8; 2];
-        let Some(s) = any_ascii_str(&mut buf) else { return };
-        if let Ok(p) = RepoPathBuf::from_relative_path(Path::new(s)) {
-            for c in p.components() {
-                let cs = c.as_internal_str();
-                assert!(!cs.is_empty() && cs != "." && cs != "..");
-            }
-            kani::cover!(true, "accepts some");
-        }
-    }
 }
